@@ -69,6 +69,7 @@ type Exec struct {
 	modMemo     map[*FuncInfo]*ModSet
 	prepared    map[*FuncInfo]bool
 	marks       map[string]*State
+	kernelsUsed map[string]bool
 	noHoudini   bool
 	probeDepth  int
 	autoInvs    []string
